@@ -7,7 +7,7 @@ exit 2: machinery failure (TLC crash, unparsable output, missing verdicts, vacui
 import argparse, hashlib, importlib, json, os, random, shutil, sys, time, traceback
 
 VERIF = os.path.dirname(os.path.dirname(os.path.dirname(os.path.abspath(__file__))))
-REPO = "/repo"
+REPO = os.environ.get("CVH_REPO", "/repo")
 
 class Ctx:
     def __init__(self, prop, tier, seed, replay=None):
